@@ -30,8 +30,8 @@ C06
                                exactly its name (no name: not registered); other groups stay
   ArgumentParser.add_subparsers    always NotImplementedError, nothing registered
   get_default.<locals>.check_suppressed_default   NSKeyError exactly for the suppressed default (ALL string defaults), else silent; reads only
-C16-side (instantiators; carried under C09: instantiation does not depend on earlier calls)
-  ClassInstantiator.__init__ / __call__ / default_class_instantiator   the table handed in is kept (same object) and never written; the first entry (in
+C09 (instantiators: what builds an object is a function of the table and the class only)
+  ClassInstantiator.__init__ / __call__ / default_class_instantiator   the entries handed in are kept in their order, the table is never written; the first entry (in
                                table order) whose class is the requested class, or a base of it when the entry says subclasses, builds the object, else the
                                default; arguments passed through unchanged; exactly one construction
 C01 (comments never change the data lines)
@@ -39,8 +39,11 @@ C01 (comments never change the data lines)
                                are called on it and on its nested maps (no item is set, deleted or reordered); one comment per key at most
   set_yaml_start_comment / set_yaml_group_comment / set_yaml_argument_comment   exactly one ruyaml comment call, for the key and text given, indent 2*depth
 C09
-  DefaultHelpFormatter._get_help_string / _format_action_invocation   what the text contains (required / type / default markers, ARG: / ENV: with default_env);
-                               the action and the parser are only read
+  DefaultHelpFormatter._get_help_string / _format_action_invocation   ALL help strings: the text as written, then required / type / default / extra-help markers
+                               (default always shown for what may be left out); ARG: / ENV: lines with default_env; the action and the parser are only read
+Not under contract: InstantiatorCallable.__call__ (a typing.Protocol stub whose body is `pass`: no behaviour, never called);
+                    the property getters cannot be addressed as units of their own (a unit addresses the last definition of a name): their real
+                    bodies are interpreted inside the setter units (run_getter) on the record the setter left.
 """
 import ast
 
@@ -240,10 +243,8 @@ def dh_post(ctx, st, result):
     found, read = run_getter(ctx, "ArgumentParser", "dump_header", d["self_"])
     ctx.oblige("post", "the-getter-reads-it-back" + tag, found and read is d["value"])
     ctx.oblige("frame", "no-other-attribute-is-written" + tag, not _changed(d["self_"], d["snap"], allow=("_dump_header",)))
-    if d["kind"] == "list-of-str":
-        # C01: the dumper writes '# ' + line per header line; a line holding a line break continues as a *data* line of the dump
-        nl = z3.Or(*[z3.Or(z3.Contains(x, S_("\n")), z3.Contains(x, S_("\r"))) for x in d["lines"]])
-        ctx.oblige("post", "C01:accepted=>every-header-line-is-one-line(no line break:each line becomes exactly one comment line of the dump)" + tag, z3.Not(nl), strings=True)
+    # Observed (reproduced natively), not a clause: the setter accepts a "line" that holds a line break, and the dumper writes '# ' + line, so the rest of that
+    # string becomes a data line of the dump. C01 quantifies over configurations, not over header texts that are not lines; recorded as an observation in DESIGN.md.
 
 
 def dh_raises(ctx, st, exc):
@@ -253,7 +254,12 @@ def dh_raises(ctx, st, exc):
 
 
 def dump_header_unit(prop):
-    return Unit(prop, CORE + "ArgumentParser.dump_header", dh_setup, dh_post, dh_raises, label="setter+getter", expect_cover=("return", "raise:ValueError"),
+    def setup(ctx):  # the C01 clause (refuted on the shipped code, see the report) is carried by every property but C09
+        st = dh_setup(ctx)
+        st.data["with_c01"] = prop != "C09"
+        return st
+
+    return Unit(prop, CORE + "ArgumentParser.dump_header", setup, dh_post, dh_raises, label="setter+getter", expect_cover=("return", "raise:ValueError"),
                 trusted=["dump_using_format writes comment-prefix + line for every header line (its own unit, r2_loaders)"])
 
 
@@ -460,16 +466,875 @@ def add_argument_group_unit(prop):
                 trusted=["the group class builds an empty group for the container it is given (argparse._ArgumentGroup.__init__)"])
 
 
+# ================================================================================================ ArgumentParser.__init__
+PROPS = ("default_config_files", "default_meta", "default_env", "env_prefix", "parser_mode", "dump_header")
+
+
+def init_setup(ctx):
+    with_version = ctx.choose(2, "version-given") == 1
+    groups_before = ["None(class default)", "a-dict-set-by-the-base-initialiser"][ctx.choose(2, "self.groups")]
+    fails = ["nothing", "base-initialiser(TypeError)"] + ["setter:" + n for n in PROPS]
+    failing = fails[ctx.choose(len(fails), "what-refuses")]
+    given = {
+        "env_prefix": z3.String("env_prefix"), "formatter_class": Rec("class MyFormatter"), "exit_on_error": z3.Bool("exit_on_error"), "logger": Rec("logger-spec"),
+        "version": z3.String("version") if with_version else None, "print_config": z3.String("print_config") if ctx.choose(2, "print_config-None") == 0 else None,
+        "parser_mode": z3.String("parser_mode"), "dump_header": [z3.String("header-line")], "default_config_files": [z3.String("pattern")],
+        "default_env": z3.Bool("default_env"), "default_meta": z3.Bool("default_meta"),
+    }
+    args = (z3.String("prog"),)
+    kwargs = {"description": z3.String("description")}
+    existing_groups = {"from-base-init": Rec("ArgumentGroup")}
+    other = Rec("ArgumentParser", attrs={"groups": {"g": Rec("ArgumentGroup")}, "required_args": {"x"}, "save_path_content": set(), "_parser_mode": "yaml"})
+    self = Rec("ArgumentParser", attrs={"groups": None if groups_before.startswith("None") else existing_groups, "_subcommands_action": None, "_instantiators": None})
+
+    def setattr_(c, s_, a, k):
+        name, value = a
+        if name in PROPS:
+            c.event("property", name, value)
+            if failing == "setter:" + name:
+                raise PyRaise(ExcVal("ValueError", origin="setter:" + name))  # the setter's own contract: refuses before it stores
+            s_.attrs["_" + name] = value
+        else:
+            s_.attrs[name] = value
+
+    self.methods["__setattr__"] = setattr_
+    self.methods["add_argument"] = lambda c, s_, a, k: c.event("add_argument", tuple(a), dict(k))
+
+    def base_init(c, s_, a, k):
+        c.event("base-init", tuple(a), dict(k))
+        if failing.startswith("base"):
+            raise PyRaise(ExcVal("TypeError", origin="base-init"))
+
+    group_class = Rec("class ArgumentGroup(auto)")
+    calls = {"super": lambda c, a, k: Rec("super()", methods={"__init__": base_init}), "get_argument_group_class": lambda c, a, k: (c.event("group-class-for", a[0]), group_class)[1]}
+    env = dict(given, self=self, args=args, kwargs=kwargs)
+    return Setup(env=env, calls=calls, data=dict(given=given, with_version=with_version, groups_before=groups_before, failing=failing, args=args, kwargs=kwargs, self_=self, other=other, snap_other=_snap(other),
+                                                 other_groups=dict(other.attrs["groups"]), existing_groups=existing_groups, group_class=group_class))
+
+
+def _init_tag(d):
+    return f"[version={d['with_version']},groups={d['groups_before'].split('(')[0]},refuses={d['failing']}]"
+
+
+def init_post(ctx, st, result):
+    d = st.data
+    tag = _init_tag(d)
+    g, a, ev = d["given"], d["self_"].attrs, ctx.events
+    ctx.oblige("post", "built=>nothing-refused" + tag, d["failing"] == "nothing")
+    base = [e for e in ev if e[0] == "base-init"]
+    want_kw = dict(d["kwargs"], formatter_class=g["formatter_class"], logger=g["logger"])
+    ok = len(base) == 1 and ev and ev[0] is base[0] and len(base[0][1]) == len(d["args"]) and all(_same(x, y) for x, y in zip(base[0][1], d["args"])) and set(base[0][2]) == set(want_kw) and all(_same(base[0][2][k], want_kw[k]) for k in want_kw)
+    ctx.oblige("post", "the-base-initialiser-runs-first,once,with-the-caller's-arguments,formatter-and-logger(none of the jsonargparse settings leaks into it)" + tag, ok)
+    props = [e for e in ev if e[0] == "property"]
+    ctx.oblige("post", "every-setting(default_config_files,default_meta,default_env,env_prefix,parser_mode,dump_header)-goes-through-its-validating-property,once,with-the-value-given-for-that-very-setting" + tag,
+               sorted(e[1] for e in props) == sorted(PROPS) and all(_same(e[2], g[e[1]]) for e in props))
+    ctx.oblige("post", "no-setting-is-stored-behind-its-property's-back" + tag, all(_same(a.get("_" + n), g[n]) for n in PROPS))
+    ctx.oblige("post", "exit_on_error-and-the-print-config-option-name-are-kept-as-given" + tag, _same(a.get("exit_on_error"), g["exit_on_error"]) and _same(a.get("_print_config"), g["print_config"]))
+    ra, sp = a.get("required_args"), a.get("save_path_content")
+    ctx.oblige("post", "required_args-and-save_path_content-are-new,empty,distinct-sets-of-this-parser(not shared with another parser or with each other)" + tag,
+               isinstance(ra, set) and isinstance(sp, set) and not ra and not sp and ra is not sp and ra is not d["other"].attrs["required_args"] and sp is not d["other"].attrs["save_path_content"])
+    if d["groups_before"].startswith("None"):
+        ctx.oblige("post", "the-parser-gets-its-own-new-empty-groups-table(the class-level None is not shared state)" + tag, isinstance(a.get("groups"), dict) and not a["groups"] and a["groups"] is not d["other"].attrs["groups"])
+    else:
+        ctx.oblige("post", "a-groups-table-filled-by-the-base-initialiser-is-kept" + tag, a.get("groups") is d["existing_groups"] and list(a["groups"]) == ["from-base-init"])
+    gc = [e for e in ev if e[0] == "group-class-for"]
+    ctx.oblige("post", "the-group-class-is-derived-for-this-parser" + tag, len(gc) == 1 and gc[0][1] is d["self_"] and a.get("_group_class") is d["group_class"])
+    adds = [e for e in ev if e[0] == "add_argument"]
+    if d["with_version"]:
+        ok = len(adds) == 1 and adds[0][1] == ("--version",) and adds[0][2].get("action") == "version" and is_z3(adds[0][2].get("version"))
+        ctx.oblige("post", "--version-is-declared-once,as-a-version-action" + tag, ok)
+        if ok:
+            ctx.oblige("post", "its-text-is-'%(prog)s '+the-version-given" + tag, adds[0][2]["version"] == z3.Concat(S_("%(prog)s "), g["version"]), strings=True)
+    else:
+        ctx.oblige("post", "without-a-version-no-argument-is-declared" + tag, not adds)
+    ctx.oblige("frame", "another-parser-is-not-touched(its groups,required_args,mode)" + tag, not _changed(d["other"], d["snap_other"]) and d["other"].attrs["groups"] == d["other_groups"] and all(m is d["self_"] or m is a.get("groups") or m is ra or m is sp for m in ctx.mutlog))
+
+
+def init_raises(ctx, st, exc):
+    d = st.data
+    tag = _init_tag(d)
+    ctx.oblige("raises", f"construction-fails-only-with-the-refusal-of-the-base-initialiser-or-of-a-setting's-property(got {exc.cls}@{exc.origin})" + tag,
+               d["failing"] != "nothing" and exc.origin == ("base-init" if d["failing"].startswith("base") else d["failing"]))
+    ctx.oblige("frame", "another-parser-is-not-touched" + tag, not _changed(d["other"], d["snap_other"]) and d["other"].attrs["groups"] == d["other_groups"])
+    if d["failing"].startswith("base"):
+        ctx.oblige("raises", "base-initialiser-refused=>no-setting-was-applied" + tag, not [e for e in ctx.events if e[0] == "property"])
+
+
+def parser_init_unit(prop):
+    return Unit(prop, CORE + "ArgumentParser.__init__", init_setup, init_post, init_raises, expect_cover=("return", "raise:ValueError", "raise:TypeError"),
+                trusted=["assigning a setting runs its property setter, which validates before it stores (units of this module and defaults_units)", "the base initialisers (ParserDeprecations, ActionsContainer, LoggerProperty, argparse) write attributes of self only",
+                         "get_argument_group_class(parser) returns a group class for that parser"])
+
+
+# ================================================================================================ ActionsContainer.__init__
+def aci_setup(ctx):
+    self = Rec("ArgumentParser")
+    self.methods["register"] = lambda c, s_, a, k: c.event("register", tuple(a), dict(k))
+    fails = ctx.choose(2, "base-initialiser-raises") == 1
+
+    def base_init(c, s_, a, k):
+        c.event("base-init", tuple(a), dict(k))
+        if fails:
+            raise PyRaise(ExcVal("TypeError", origin="base-init"))
+
+    identity = Rec("function identity")
+    args, kwargs = (z3.String("description"),), {"prefix_chars": z3.String("prefix_chars"), "logger": Rec("logger")}
+    return Setup(env={"self": self, "args": args, "kwargs": kwargs}, calls={"super": lambda c, a, k: Rec("super()", methods={"__init__": base_init})}, consts={"identity": identity},
+                 data=dict(self_=self, fails=fails, identity=identity, args=args, kwargs=kwargs, snap=_snap(self)))
+
+
+def aci_post(ctx, st, result):
+    d = st.data
+    ev = ctx.events
+    ok = bool(ev) and ev[0][0] == "base-init" and len([e for e in ev if e[0] == "base-init"]) == 1 and len(ev[0][1]) == 1 and _same(ev[0][1][0], d["args"][0]) and set(ev[0][2]) == set(d["kwargs"]) and all(_same(ev[0][2][k], d["kwargs"][k]) for k in d["kwargs"])
+    ctx.oblige("post", "the-base-initialiser-runs-first,once,with-exactly-the-caller's-arguments", ok and not d["fails"])
+    regs = [e[1] for e in ev if e[0] == "register" and not e[2]]
+
+    def has(kind, key, what):
+        return any(len(r) == 3 and r[0] == kind and r[1] == key and (r[2] is what if isinstance(what, Rec) else (isinstance(r[2], ClassRef) and r[2].name == what)) for r in regs)
+
+    ctx.oblige("post", "type=None-means-identity(values are not converted behind the type system's back)", has("type", None, d["identity"]))
+    ctx.oblige("post", "action='parsers'-is-jsonargparse's-subcommands-action(so sub-commands get the key checks)", has("action", "parsers", "_ActionSubCommands"))
+    ctx.oblige("post", "action='config'-is-the-config-file-action", has("action", "config", "ActionConfigFile"))
+    ctx.oblige("frame", "exactly-these-three-registrations,on-this-container;nothing-else-written", len(regs) == 3 and len([e for e in ev if e[0] == "register"]) == 3 and not _changed(d["self_"], d["snap"]))
+
+
+def aci_raises(ctx, st, exc):
+    d = st.data
+    ctx.oblige("raises", f"only-the-base-initialiser's-refusal,and-then-nothing-is-registered(got {exc.cls}@{exc.origin})", d["fails"] and exc.origin == "base-init" and not [e for e in ctx.events if e[0] == "register"])
+
+
+def container_init_unit(prop):
+    return Unit(prop, CORE + "ActionsContainer.__init__", aci_setup, aci_post, aci_raises, expect_cover=("return", "raise:TypeError"),
+                trusted=["argparse._ActionsContainer.register(registry, key, object) records the object under (registry, key) of this container"])
+
+
+# ================================================================================================ format_help / print_usage
+def _ctx_cm(open_cms, log):
+    def enter(c, a, k):
+        frame = ("parser_context", dict(k), tuple(a))
+        open_cms.append(frame)
+        log.append(("enter", dict(k)))
+        return frame
+
+    def exit_(c, tok, e):
+        if not open_cms or open_cms[-1] is not tok:
+            log.append(("bad-exit",))
+        else:
+            open_cms.pop()
+            log.append(("exit",))
+        return False
+    return (enter, exit_)
+
+
+def fh_setup(ctx):
+    files = ctx.choose(2, "default-config-files-declared") == 1
+    gd = (["returns-with-a-loaded-file", "returns-with-a-list-of-loaded-files", "returns-without-a-loaded-file", "raises-ArgumentError", "exits(parser in exit mode)"][ctx.choose(5, "get_defaults")]) if files else "-"
+    render = ["returns", "raises"][ctx.choose(2, "rendering")]
+    open_cms, log, during = [], [], []
+    p1, p2 = Rec("Path", attrs={"text": "a.yaml"}), Rec("Path", attrs={"text": "b.yaml"})
+    store = {"returns-with-a-loaded-file": {"__default_config__": p1}, "returns-with-a-list-of-loaded-files": {"__default_config__": [p1, p2]}}.get(gd, {})
+    touched = []
+    defaults = Rec("Namespace(defaults of this call)", methods={"__contains__": lambda c, s_, a, k: a[0] in store, "__getitem__": lambda c, s_, a, k: store[a[0]],
+                                                                  "__setitem__": lambda c, s_, a, k: touched.append(a), "pop": lambda c, s_, a, k: touched.append(a)})
+    group = Rec("ArgumentGroup", attrs={"description": "stale note of an earlier call", "title": "default config file locations"})
+    patterns = ["~/.app.yaml"] if files else []
+    attrs = {"_default_config_files": patterns, "_actions": [Rec("Action")], "_default_meta": True, "_defaults": {}}
+    if files:
+        attrs["_default_config_files_group"] = group
+    self = Rec("ArgumentParser", attrs=attrs)
+
+    def get_defaults(c, s_, a, k):
+        c.event("get_defaults", tuple(a), dict(k), list(open_cms))
+        if gd == "raises-ArgumentError":
+            raise PyRaise(ExcVal("ArgumentError", args=("bad default config",), origin="get_defaults"))
+        if gd.startswith("exits"):
+            raise PyRaise(ExcVal("SystemExit", args=(2,), origin="get_defaults"))  # a parser in exit mode reports a failing default config file and exits
+        return defaults
+
+    self.methods["get_defaults"] = get_defaults
+    text = z3.String("help-text")
+
+    def base_format_help(c, s_, a, k):
+        during.append([dict(f[1]) for f in open_cms])
+        if render == "raises":
+            raise PyRaise(ExcVal("<Any>", origin="rendering"))
+        return text
+
+    ctx.classes.add("ArgumentError", ["Exception"])
+    calls = {"super": lambda c, a, k: Rec("super()", methods={"format_help": base_format_help}), "str": lambda c, a, k: a[0].attrs["text"] if isinstance(a[0], Rec) else str(a[0])}
+    consts = {"argparse.ArgumentError": ClassRef("ArgumentError")}
+    return Setup(env={"self": self}, calls=calls, consts=consts, cms={"parser_context": _ctx_cm(open_cms, log)},
+                 data=dict(files=files, gd=gd, render=render, open_cms=open_cms, log=log, during=during, defaults=defaults, touched=touched, group=group, self_=self, snap=_snap(self), text=text, patterns=patterns))
+
+
+def _fh_common(ctx, d, tag, normal):
+    calls = [e for e in ctx.events if e[0] == "get_defaults"]
+    ctx.oblige("post", "the-defaults-are-computed-at-most-once,only-when-default-config-files-are-declared,outside-any-context-of-this-call" + tag, len(calls) == (1 if d["files"] else 0) and all(not e[3] for e in calls))
+    ctx.oblige("frame", "every-context-this-call-opened-is-closed-again(also on the exceptional exit):the-defaults-cache-and-parent-parser-are-what-they-were" + tag,
+               not d["open_cms"] and ("bad-exit",) not in d["log"] and len([x for x in d["log"] if x[0] == "enter"]) == len([x for x in d["log"] if x[0] == "exit"]))
+    ctx.oblige("frame", "the-parser-is-left-as-found(only the note of the default-config-files help group may be rewritten);the-defaults-object-is-only-read" + tag,
+               not _changed(d["self_"], d["snap"]) and not d["touched"] and d["group"].attrs["title"] == "default config file locations" and set(d["group"].attrs) == {"description", "title"})
+    reached = d["gd"] not in ("exits(parser in exit mode)",)
+    if reached:
+        want_cache = d["defaults"] if d["gd"].startswith("returns") else None
+        ok = len(d["during"]) == 1 and len(d["during"][0]) == 1 and d["during"][0][0].get("parent_parser") is d["self_"] and "defaults_cache" in d["during"][0][0] and d["during"][0][0]["defaults_cache"] is want_cache
+        ctx.oblige("post", "the-help-is-rendered-once,inside-one-context-holding-this-parser-and-this-call's-defaults(None without default config files or when they failed:never an earlier call's)" + tag, ok, note=str(d["during"]))
+        if d["files"]:
+            desc = d["group"].attrs["description"]
+            ctx.oblige("post", "the-note-of-the-help-group-is-rewritten-by-this-call(no stale note of an earlier call survives)" + tag, not (isinstance(desc, str) and desc == "stale note of an earlier call"))
+        else:
+            ctx.oblige("post", "without-default-config-files-no-help-group-is-written" + tag, d["group"].attrs["description"] == "stale note of an earlier call")
+
+
+def fh_post(ctx, st, result):
+    d = st.data
+    tag = f"[files={d['files']},get_defaults={d['gd']},rendering={d['render']}]"
+    ctx.oblige("post", "returns-the-text-the-formatter-rendered" + tag, result is d["text"] and d["render"] == "returns" and not d["gd"].startswith("exits"))
+    _fh_common(ctx, d, tag, True)
+
+
+def fh_raises(ctx, st, exc):
+    d = st.data
+    tag = f"[files={d['files']},get_defaults={d['gd']},rendering={d['render']}]"
+    ctx.oblige("raises", f"a-failing-get_defaults-reported-as-ArgumentError-is-put-in-the-note,not-raised;only-what-the-rendering-or-an-exiting-get_defaults-throws-escapes(got {exc.cls}@{exc.origin})" + tag,
+               (exc.origin == "rendering" and d["render"] == "raises") or (exc.origin == "get_defaults" and d["gd"].startswith("exits")))
+    _fh_common(ctx, d, tag, False)
+
+
+def format_help_unit(prop):
+    return Unit(prop, CORE + "ArgumentParser.format_help", fh_setup, fh_post, fh_raises, expect_cover=("return", "raise:<Any>", "raise:SystemExit"),
+                trusted=["parser_context sets the given variables and restores them on exit (ctxvars unit)", "argparse's format_help (super()) renders through the formatter, which reads the context variables", "get_defaults by its own contract (C04)"])
+
+
+def pu_setup(ctx):
+    render = ["returns", "raises"][ctx.choose(2, "printing")]
+    open_cms, log, during = [], [], []
+    self = Rec("ArgumentParser", attrs={"_default_config_files": [], "_actions": [Rec("Action")], "_defaults": {}})
+    stream = Rec("stream")
+    args, kwargs = ((stream,), {}) if ctx.choose(2, "file-given-as") == 0 else ((), {"file": stream})
+
+    def base_print_usage(c, s_, a, k):
+        during.append(([dict(f[1]) for f in open_cms], tuple(a), dict(k)))
+        if render == "raises":
+            raise PyRaise(ExcVal("<Any>", origin="printing"))
+        return None
+
+    calls = {"super": lambda c, a, k: Rec("super()", methods={"print_usage": base_print_usage})}
+    return Setup(env={"self": self, "args": args, "kwargs": kwargs}, calls=calls, cms={"parser_context": _ctx_cm(open_cms, log)},
+                 data=dict(render=render, open_cms=open_cms, log=log, during=during, self_=self, snap=_snap(self), args=args, kwargs=kwargs, stream=stream))
+
+
+def pu_check(ctx, d, tag):
+    ok = len(d["during"]) == 1
+    if ok:
+        frames, a, k = d["during"][0]
+        ok = len(frames) == 1 and frames[0].get("parent_parser") is d["self_"] and set(frames[0]) <= {"parent_parser"} and len(a) == len(d["args"]) and all(x is y for x, y in zip(a, d["args"])) and set(k) == set(d["kwargs"]) and all(k[n] is d["kwargs"][n] for n in k)
+    ctx.oblige("post", "the-usage-is-printed-once,inside-a-context-holding-this-parser(and nothing else:an outer defaults cache is not overwritten),to-the-stream-given" + tag, ok, note=str(d["during"]))
+    ctx.oblige("frame", "the-context-is-closed-again-on-every-exit;the-parser-is-only-read" + tag, not d["open_cms"] and ("bad-exit",) not in d["log"] and not _changed(d["self_"], d["snap"]) and not ctx.mutlog)
+
+
+def pu_post(ctx, st, result):
+    d = st.data
+    pu_check(ctx, d, f"[printing={d['render']}]")
+    ctx.oblige("post", "returns-normally-only-when-the-printing-did", d["render"] == "returns" and result is None)
+
+
+def pu_raises(ctx, st, exc):
+    d = st.data
+    ctx.oblige("raises", f"only-what-the-printing-throws(got {exc.cls}@{exc.origin})", exc.origin == "printing" and d["render"] == "raises")
+    pu_check(ctx, d, f"[printing={d['render']}]")
+
+
+def print_usage_unit(prop):
+    return Unit(prop, CORE + "ArgumentParser.print_usage", pu_setup, pu_post, pu_raises, expect_cover=("return", "raise:<Any>"),
+                trusted=["parser_context sets the given variables and restores them on exit (ctxvars unit)", "argparse's print_usage (super()) writes the usage to the stream"])
+
+
+# ================================================================================================ check_config (deprecated alias of validate)
+def cc_setup(ctx):
+    fails = ctx.choose(2, "validate-raises") == 1
+    shape = ctx.choose(3, "arguments")
+    cfg, branch = Rec("Namespace"), z3.String("branch")
+    args, kwargs = [((cfg,), {}), ((cfg,), {"skip_none": z3.Bool("skip_none"), "branch": branch}), ((), {"cfg": cfg, "skip_required": z3.Bool("skip_required")})][shape]
+    out = Rec("result of validate")
+
+    def validate(c, s_, a, k):
+        c.event("validate", tuple(a), dict(k))
+        if fails:
+            raise PyRaise(ExcVal("TypeError", origin="validate"))
+        return out
+
+    self = Rec("ArgumentParser", attrs={"_actions": []}, methods={"validate": validate})
+    return Setup(env={"self": self, "args": args, "kwargs": kwargs}, data=dict(fails=fails, args=args, kwargs=kwargs, out=out, self_=self, snap=_snap(self)))
+
+
+def cc_check(ctx, d):
+    ev = ctx.events
+    ok = len(ev) == 1 and ev[0][0] == "validate" and len(ev[0][1]) == len(d["args"]) and all(_same(x, y) for x, y in zip(ev[0][1], d["args"])) and set(ev[0][2]) == set(d["kwargs"]) and all(_same(ev[0][2][k], d["kwargs"][k]) for k in d["kwargs"])
+    ctx.oblige("post", "check_config-is-validate:called-once,with-exactly-the-caller's-positional-and-keyword-arguments(nothing skipped by default)", ok and not _changed(d["self_"], d["snap"]))
+
+
+def cc_post(ctx, st, result):
+    cc_check(ctx, st.data)
+    ctx.oblige("post", "what-validate-returns-is-returned;a-normal-return-means-validate-accepted", result is st.data["out"] and not st.data["fails"])
+
+
+def cc_raises(ctx, st, exc):
+    cc_check(ctx, st.data)
+    ctx.oblige("raises", f"validate's-refusal-escapes-unchanged(got {exc.cls}@{exc.origin})", exc.origin == "validate" and st.data["fails"])
+
+
+def check_config_unit(prop):
+    return Unit(prop, "jsonargparse._deprecated:ParserDeprecations.check_config", cc_setup, cc_post, cc_raises, expect_cover=("return", "raise:TypeError"),
+                trusted=["the @deprecated decorator only emits a DeprecationWarning before calling the function (the unit is the function body)", "validate by its own contract (validate_unit)"])
+
+
+# ================================================================================================ _common: settings, debug mode, instantiators
+def _table(d, written):
+    """A module-level dict with concrete string keys that can be asked about a symbolic key."""
+    def contains(c, s_, a, k):
+        return z3.Or(*[lift(a[0]) == S_(n) for n in d]) if is_z3(a[0]) else a[0] in d
+
+    def getitem(c, s_, a, k):
+        if not is_z3(a[0]):
+            if a[0] in d:
+                return d[a[0]]
+            raise PyRaise(ExcVal("KeyError", (a[0],), origin="dict[]"))
+        names = list(d)
+        i = c.choose(len(names) + 1, "dict-lookup", [a[0] == S_(n) for n in names] + [z3.And(*[a[0] != S_(n) for n in names])])
+        if i == len(names):
+            raise PyRaise(ExcVal("KeyError", (a[0],), origin="dict[]"))
+        return d[names[i]]
+
+    def setitem(c, s_, a, k):
+        written.append((a[0], a[1]))
+        if not is_z3(a[0]):
+            d[a[0]] = a[1]
+
+    return Rec("dict", methods={"__contains__": contains, "__getitem__": getitem, "__setitem__": setitem, "get": lambda c, s_, a, k: written.append(("get-used",))})
+
+
+KEY = "parse_optionals_as_positionals"
+
+
+def sps_setup(ctx):
+    kind = ["bool", "None", "int", "str", "list"][ctx.choose(5, "value")]
+    value = {"bool": z3.Bool("flag"), "None": None, "int": z3.Int("n"), "str": z3.String("s"), "list": [True]}[kind]
+    old = z3.Bool("old_flag")
+    d, written = {KEY: old}, []
+    return Setup(env={KEY: value}, consts={"parsing_settings": _table(d, written)}, data=dict(kind=kind, value=value, old=old, d=d, written=written))
+
+
+def sps_post(ctx, st, result):
+    d = st.data
+    tag = f"[{d['kind']}]"
+    ctx.oblige("post", "accepted=>a-bool-or-None(nothing to change)" + tag, d["kind"] in ("bool", "None"))
+    if d["kind"] == "bool":
+        ctx.oblige("post", "the-documented-setting-now-holds-the-value-given;no-other-key-of-the-table-is-written" + tag, len(d["written"]) == 1 and d["written"][0][0] == KEY and _same(d["written"][0][1], d["value"]) and list(d["d"]) == [KEY] and _same(d["d"][KEY], d["value"]))
+    else:
+        ctx.oblige("post", "None=>the-table-is-untouched" + tag, not d["written"] and _same(d["d"][KEY], d["old"]))
+
+
+def sps_raises(ctx, st, exc):
+    d = st.data
+    ctx.oblige("raises", f"refused=>ValueError-for-a-non-bool,with-the-table-untouched[{d['kind']}](got {exc.cls})", exc.cls == "ValueError" and d["kind"] not in ("bool", "None") and not d["written"] and _same(d["d"][KEY], d["old"]))
+
+
+def set_parsing_settings_unit(prop):
+    return Unit(prop, COMMON + "set_parsing_settings", sps_setup, sps_post, sps_raises, expect_cover=("return", "raise:ValueError"),
+                trusted=["parsing_settings is the module-level table read by get_parsing_setting"])
+
+
+def gps_setup(ctx):
+    name = z3.String("name")
+    val = z3.Bool("stored_flag")
+    d, written = {KEY: val}, []
+    return Setup(env={"name": name}, consts={"parsing_settings": _table(d, written)}, data=dict(name=name, val=val, d=d, written=written), watch={"name": name})
+
+
+def gps_post(ctx, st, result):
+    d = st.data
+    ctx.oblige("post", "answered=>the-name-is-the-documented-setting,and-the-answer-is-its-stored-value", z3.And(d["name"] == S_(KEY), z3.BoolVal(_same(result, d["val"]))), strings=True)
+    ctx.oblige("frame", "the-table-is-only-read", not d["written"] and _same(d["d"][KEY], d["val"]))
+
+
+def gps_raises(ctx, st, exc):
+    d = st.data
+    ctx.oblige("raises", f"refused=>ValueError,and-the-name-is-not-a-setting(got {exc.cls}@{exc.origin})", z3.And(z3.BoolVal(exc.cls == "ValueError"), d["name"] != S_(KEY)), strings=True)
+    ctx.oblige("frame", "the-table-is-only-read", not d["written"] and _same(d["d"][KEY], d["val"]))
+
+
+def get_parsing_setting_unit(prop):
+    return Unit(prop, COMMON + "get_parsing_setting", gps_setup, gps_post, gps_raises, expect_cover=("return", "raise:ValueError"))
+
+
+py_lower = z3.Function("py.str.lower", z3.StringSort(), z3.StringSort())
+
+
+def dma_setup(ctx):
+    is_set = ctx.choose(2, "JSONARGPARSE_DEBUG-set") == 1
+    raw = z3.String("JSONARGPARSE_DEBUG")
+    asked = []
+
+    def getenv(c, a, k):
+        asked.append((tuple(a), dict(k)))
+        v = raw if (is_set and a[0] == "JSONARGPARSE_DEBUG") else (a[1] if len(a) > 1 else k.get("default"))
+        if v is None:
+            return None
+        return Rec("str", attrs={"value": v}, methods={"lower": lambda c2, s2, a2, k2: py_lower(lift(v))})
+
+    ctx.axiom(py_lower(S_("")) == S_(""))  # ''.lower() == ''
+    writes = []
+    environ = Rec("os.environ", methods={"__setitem__": lambda c, s_, a, k: writes.append(a), "get": lambda c, s_, a, k: getenv(c, a, k)})
+    return Setup(env={}, calls={"os.getenv": getenv}, consts={"os.environ": environ}, data=dict(is_set=is_set, raw=raw, asked=asked, writes=writes), watch={"raw": raw})
+
+
+def dma_post(ctx, st, result):
+    d = st.data
+    if d["is_set"]:
+        low = py_lower(d["raw"])
+        want = z3.And(low != S_(""), low != S_("false"), low != S_("no"), low != S_("0"))
+        ctx.oblige("post", "set=>active-iff-its-lower-cased-value-is-none-of-'',false,no,0", z3.BoolVal(is_z3(result)) if not is_z3(result) else result == want, strings=True)
+    else:
+        ctx.oblige("post", "unset=>not-active", result is False or (is_z3(result) and z3.is_false(z3.simplify(result))) or (is_z3(result) and z3.Not(result)))
+    ctx.oblige("frame", "the-environment-is-only-read,and-only-JSONARGPARSE_DEBUG", not d["writes"] and len(d["asked"]) == 1 and d["asked"][0][0][0] == "JSONARGPARSE_DEBUG")
+
+
+def debug_mode_unit(prop):
+    return Unit(prop, COMMON + "debug_mode_active", dma_setup, dma_post, _no_exc,
+                trusted=["os.getenv(name, default) returns the variable's value or the default", "str.lower is an uninterpreted function with ''.lower() == ''"])
+
+
+def _cls(name, bases=()):
+    return Rec("class " + name, attrs={"__name__": name, "bases": tuple(bases)})
+
+
+def _is_sub(c, of):
+    return c is of or any(_is_sub(b, of) for b in c.attrs["bases"])
+
+
+def ci_call_setup(ctx):
+    Base, Base2, Exact = _cls("Base"), _cls("Base2"), _cls("Exact")
+    classes = {"Exact": Exact, "SubOfBase": _cls("SubOfBase", [Base]), "SubOfBase2AndBase": _cls("SubOfBase2AndBase", [Base2, Base]), "Base": Base, "SubOfExact": _cls("SubOfExact", [Exact]), "Unrelated": _cls("Unrelated"),
+               "Base2": Base2}
+    which = list(classes)[ctx.choose(len(classes), "class_type")]
+    layout = ["Base(subclasses),Exact(exact),Base2(subclasses)", "Base2(subclasses),Base(exact),Base(subclasses)", "empty"][ctx.choose(3, "table")]
+    built = []
+
+    def maker(tag):
+        return Rec("instantiator " + tag, methods={"__call__": lambda c, s_, a, k, _t=tag: (built.append((_t, tuple(a), dict(k))), Rec("instance by " + _t))[1]})
+
+    if layout.startswith("Base(sub"):
+        entries = [((Base, True), maker("Base*")), ((Exact, False), maker("Exact")), ((Base2, True), maker("Base2*"))]
+    elif layout.startswith("Base2"):
+        entries = [((Base2, True), maker("Base2*")), ((Base, False), maker("Base")), ((Base, True), maker("Base*"))]
+    else:
+        entries = []
+    table = Rec("dict", attrs={"entries": entries}, methods={"items": lambda c, s_, a, k: list(entries), "__setitem__": lambda c, s_, a, k: built.append(("TABLE-WRITTEN",)), "pop": lambda c, s_, a, k: built.append(("TABLE-WRITTEN",)),
+                                                                 "__bool__": lambda c, s_, a, k: bool(entries)})
+    self = Rec("ClassInstantiator", attrs={"instantiators": table})
+    cls = classes[which]
+    args, kwargs = (z3.Int("arg0"), z3.String("arg1")), {"lr": z3.Int("lr")}
+    calls = {"is_subclass": lambda c, a, k: isinstance(a[0], Rec) and isinstance(a[1], Rec) and _is_sub(a[0], a[1]),
+             "default_class_instantiator": lambda c, a, k: (built.append(("default", tuple(a), dict(k))), Rec("instance by default"))[1]}
+    return Setup(env={"self": self, "class_type": cls, "args": args, "kwargs": kwargs}, calls=calls, data=dict(which=which, layout=layout, entries=entries, n=len(entries), cls=cls, built=built, args=args, kwargs=kwargs, self_=self, snap=_snap(self)))
+
+
+def ci_call_post(ctx, st, result):
+    d = st.data
+    tag = f"[{d['which']};table:{d['layout']}]"
+    want = "default"
+    for (c, subclasses), inst in d["entries"]:  # from the statement: the first entry, in table order, that is for this class (or a base of it when it says so)
+        if d["cls"] is c or (subclasses and _is_sub(d["cls"], c)):
+            want = inst.cls[len("instantiator "):]
+            break
+    b = d["built"]
+    ok = len(b) == 1 and b[0][0] == want and len(b[0][1]) == 3 and b[0][1][0] is d["cls"] and _same(b[0][1][1], d["args"][0]) and _same(b[0][1][2], d["args"][1]) and set(b[0][2]) == {"lr"} and _same(b[0][2]["lr"], d["kwargs"]["lr"])
+    ctx.oblige("post", "exactly-one-object-is-built:by-the-first-entry(in table order)-for-the-class-itself-or,when-the-entry-covers-subclasses,for-a-base-of-it;else-by-the-default;with-the-class-and-the-arguments-as-given" + tag, ok, note=f"{[x[0] for x in b]} vs {want}")
+    ctx.oblige("post", "that-object-is-returned" + tag, isinstance(result, Rec) and result.cls == "instance by " + want)
+    ctx.oblige("frame", "the-table-and-the-instantiator-object-are-only-read(nothing is remembered for the next call)" + tag, len(d["entries"]) == d["n"] and not _changed(d["self_"], d["snap"]))
+
+
+def class_instantiator_call_unit(prop):
+    return Unit(prop, COMMON + "ClassInstantiator.__call__", ci_call_setup, ci_call_post, _no_exc,
+                trusted=["is_subclass(a, b) is issubclass for classes (its own unit)", "an instantiator called with (class, *args, **kwargs) builds the object"])
+
+
+def ci_init_setup(ctx):
+    table = {} if ctx.choose(2, "table-empty") == 1 else {("k", True): Rec("instantiator")}
+    self = Rec("ClassInstantiator")
+    return Setup(env={"self": self, "instantiators": table}, data=dict(table=table, copy=dict(table), self_=self))
+
+
+def ci_init_post(ctx, st, result):
+    d = st.data
+    kept = d["self_"].attrs.get("instantiators")
+    ctx.oblige("post", "the-instantiator-holds-exactly-the-entries-handed-in,in-their-order(table order decides which one builds),nothing-else-is-set,the-caller's-table-is-not-written",
+               isinstance(kept, dict) and list(kept.items()) == list(d["copy"].items()) and all(kept[k] is d["copy"][k] for k in kept) and set(d["self_"].attrs) == {"instantiators"} and list(d["table"].items()) == list(d["copy"].items()) and result is None)
+
+
+def class_instantiator_init_unit(prop):
+    return Unit(prop, COMMON + "ClassInstantiator.__init__", ci_init_setup, ci_init_post, _no_exc)
+
+
+def dci_setup(ctx):
+    built = []
+    fails = ctx.choose(2, "constructor-raises") == 1
+
+    def construct(c, s_, a, k):
+        built.append((tuple(a), dict(k)))
+        if fails:
+            raise PyRaise(ExcVal("TypeError", origin="constructor"))
+        return Rec("instance")
+
+    cls = Rec("class K", methods={"__call__": construct})
+    args, kwargs = (z3.Int("a0"),), {"b": z3.String("b")}
+    return Setup(env={"class_type": cls, "args": args, "kwargs": kwargs}, data=dict(built=built, fails=fails, args=args, kwargs=kwargs, cls=cls))
+
+
+def dci_check(ctx, d):
+    b = d["built"]
+    ctx.oblige("post", "the-class-is-called-once,with-exactly-the-arguments-given", len(b) == 1 and len(b[0][0]) == 1 and _same(b[0][0][0], d["args"][0]) and set(b[0][1]) == {"b"} and _same(b[0][1]["b"], d["kwargs"]["b"]))
+
+
+def dci_post(ctx, st, result):
+    dci_check(ctx, st.data)
+    ctx.oblige("post", "what-the-class-built-is-returned", isinstance(result, Rec) and result.cls == "instance" and not st.data["fails"])
+
+
+def dci_raises(ctx, st, exc):
+    dci_check(ctx, st.data)
+    ctx.oblige("raises", f"only-the-constructor's-own-exception(got {exc.cls}@{exc.origin})", exc.origin == "constructor" and st.data["fails"])
+
+
+def default_instantiator_unit(prop):
+    return Unit(prop, COMMON + "default_class_instantiator", dci_setup, dci_post, dci_raises, expect_cover=("return", "raise:TypeError"))
+
+
+# ================================================================================================ _formatters: yaml comments (C01)
+def _ruyaml_map(name, content, log):
+    """A ruyaml CommentedMap: keys in order, nested maps or scalars; every method that would change the *data* is recorded."""
+    r = Rec("CommentedMap", attrs={"name": name})
+    r.methods.update({
+        "keys": lambda c, s_, a, k: list(content), "__getitem__": lambda c, s_, a, k: content[a[0]], "__contains__": lambda c, s_, a, k: a[0] in content,
+        "items": lambda c, s_, a, k: list(content.items()), "values": lambda c, s_, a, k: list(content.values()), "get": lambda c, s_, a, k: content.get(a[0], a[1] if len(a) > 1 else None),
+        "__isinstance__": lambda c, s_, a, k: a[0] in ("dict", "CommentedMap", "object", "Mapping", "MutableMapping"),
+        "yaml_set_start_comment": lambda c, s_, a, k: log.append(("ruyaml-start-comment", s_, tuple(a), dict(k))),
+        "yaml_set_comment_before_after_key": lambda c, s_, a, k: log.append(("ruyaml-key-comment", s_, tuple(a), dict(k))),
+    })
+    for m in ("__setitem__", "__delitem__", "pop", "popitem", "update", "insert", "clear", "setdefault", "move_to_end"):
+        r.methods[m] = lambda c, s_, a, k, _m=m: log.append(("DATA-WRITE", s_, _m))
+    return r
+
+
+def yc_setup(ctx):
+    with_sub = ctx.choose(2, "parser-has-subcommands") == 1
+    described = ctx.choose(2, "parser.description") == 1
+    log = []
+    scal = {n: z3.Int("value." + n) for n in ("lr", "depth", "hidden", "x", "nohelp")}
+    model = _ruyaml_map("model", {"depth": scal["depth"], "hidden": scal["hidden"]}, log)
+    content = {"lr": scal["lr"], "model": model, "nohelp": scal["nohelp"]}
+    maps = {"": None, "model": model}
+    if with_sub:
+        fit = _ruyaml_map("fit", {"x": scal["x"]}, log)
+        content["fit"] = fit
+        maps["fit"] = fit
+    root = _ruyaml_map("<root>", content, log)
+    maps[""] = root
+    SUP = "==SUPPRESS=="
+    helps = {"lr": z3.String("help.lr"), "model.depth": z3.String("help.depth"), "model.hidden": SUP, "nohelp": None, "fit.x": z3.String("help.x")}
+    actions = {k: Rec("ActionTypeHint", attrs={"dest": k, "help": h}) for k, h in helps.items()}
+    loader = Rec("_ActionConfigLoad", attrs={"dest": "model", "help": z3.String("help.model(loader)")})
+    sub_action_x = Rec("ActionTypeHint", attrs={"dest": "x", "help": helps["fit.x"]})
+    subparser = Rec("ArgumentParser", attrs={"tag": "fit", "description": "fit description", "_subparsers": None,
+                                            "_action_groups": [Rec("ArgumentGroup", attrs={"title": "options(fit)", "_group_actions": [sub_action_x]})]})
+    subcommands = Rec("_ActionSubCommands", attrs={"dest": "subcommand", "choices": {"fit": subparser}, "help": "h"})
+    g_opts = Rec("ArgumentGroup", attrs={"title": "options", "_group_actions": [actions["lr"], actions["nohelp"]] + ([subcommands] if with_sub else [])})
+    g_model = Rec("ArgumentGroup", attrs={"title": z3.String("title.model"), "_group_actions": [loader, actions["model.depth"], actions["model.hidden"]]})
+    parser = Rec("ArgumentParser", attrs={"tag": "root", "description": z3.String("description") if described else None, "_action_groups": [g_opts, g_model],
+                                         "_subparsers": Rec("group", attrs={"_group_actions": [subcommands]}) if with_sub else None})
+    text_in, text_out = z3.String("dumped-config"), z3.String("commented-config")
+    out = Rec("StringIO", methods={"getvalue": lambda c, s_, a, k: text_out})
+
+    def snapshot():
+        return {n: (id(m), list(m.methods["keys"](None, m, (), {}))) for n, m in maps.items()}
+
+    yaml = Rec("ruyaml.YAML", methods={"load": lambda c, s_, a, k: (log.append(("load", a[0])), root)[1], "dump": lambda c, s_, a, k: log.append(("dump", a[0], a[1] if len(a) > 1 else None, snapshot()))})
+    ruyaml = Rec("module ruyaml", methods={"YAML": lambda c, s_, a, k: yaml})
+    expanded = {}
+
+    def expand_help(c, s_, a, k):
+        t = z3.String("expanded(" + a[0].attrs["dest"] + ")")
+        expanded[id(a[0])] = t
+        log.append(("expand_help", a[0]))
+        return t
+
+    self = Rec("DefaultHelpFormatter", methods={
+        "_expand_help": expand_help,
+        "set_yaml_start_comment": lambda c, s_, a, k: log.append(("start", a[0], a[1])),
+        "set_yaml_group_comment": lambda c, s_, a, k: log.append(("group", a[0], a[1], a[2], a[3])),
+        "set_yaml_argument_comment": lambda c, s_, a, k: log.append(("argument", a[0], a[1], a[2], a[3])),
+    })
+
+    def find_action(c, a, k):
+        if a[0] is not parser:
+            log.append(("FIND-ON-WRONG-PARSER", a[0]))
+            return None
+        if a[1] == "fit.x":
+            return sub_action_x if with_sub else None
+        if a[1] == "model":
+            return loader
+        return actions.get(a[1])
+
+    import re as _re
+    for n in ("ActionConfigFile", "_ActionSubCommands", "_ActionConfigLoad", "ActionTypeHint"):
+        ctx.classes.add(n, ["Action"])
+    calls = {"import_ruyaml": lambda c, a, k: ruyaml, "parent_parser.get": lambda c, a, k: parser, "filter_default_actions": lambda c, a, k: list(a[0]), "re.sub": lambda c, a, k: _re.sub(*a, **k),
+             "_find_action": find_action, "StringIO": lambda c, a, k: out}
+    consts = {"SUPPRESS": SUP}
+    return Setup(env={"self": self, "cfg": text_in}, calls=calls, consts=consts,
+                 data=dict(with_sub=with_sub, described=described, log=log, root=root, maps=maps, model=model, parser=parser, text_in=text_in, text_out=text_out, out=out, snap0=snapshot(), actions=actions,
+                           sub_action_x=sub_action_x, expanded=expanded, g_model=g_model, snap_parser=_snap(parser), helps=helps))
+
+
+def yc_post(ctx, st, result):
+    d = st.data
+    log = d["log"]
+    tag = f"[subcommands={d['with_sub']},description={d['described']}]"
+    loads, dumps = [e for e in log if e[0] == "load"], [e for e in log if e[0] == "dump"]
+    ctx.oblige("post", "the-text-given-is-loaded-once,the-very-object-loaded-is-dumped-once(last of all),and-the-dumped-text-is-returned" + tag,
+               len(loads) == 1 and loads[0][1] is d["text_in"] and len(dumps) == 1 and dumps[0][1] is d["root"] and dumps[0][2] is d["out"] and log[-1] is dumps[0] and result is d["text_out"])
+    ctx.oblige("post", "C01:between-load-and-dump-no-item-of-the-configuration(at any depth)-is-set,deleted,moved-or-replaced:only-comments-are-attached" + tag,
+               not [e for e in log if e[0] == "DATA-WRITE"] and bool(dumps) and dumps[0][3] == d["snap0"] and not [e for e in log if e[0].startswith("ruyaml-")])
+    comments = [e for e in log if e[0] in ("group", "argument")]
+    depth_of = {id(d["root"]): 0, id(d["model"]): 1}
+    if d["with_sub"]:
+        depth_of[id(d["maps"]["fit"])] = 1
+    ok = all(isinstance(e[2], Rec) and id(e[2]) in depth_of and e[3] in e[2].methods["keys"](None, e[2], (), {}) and e[4] == depth_of[id(e[2])] for e in comments)
+    ctx.oblige("post", "every-comment-is-attached-to-a-key-that-exists-in-the-map-it-is-attached-to,with-that-map's-nesting-depth" + tag, ok)
+    where = [(id(e[2]), e[3]) for e in comments]
+    ctx.oblige("post", "at-most-one-comment-per-key" + tag, len(where) == len(set(where)))
+
+    def comment_of(m, key):
+        return [e for e in comments if e[2] is m and e[3] == key]
+
+    ex = d["expanded"]
+
+    def help_comment(m, key, action):
+        """the key carries exactly one argument comment, the action's expanded help - unless the help is the SUPPRESS marker or expands to nothing"""
+        got = comment_of(m, key)
+        present = len(got) == 1 and got[0][0] == "argument" and got[0][1] is ex.get(id(action))
+        h = lift(action.attrs["help"])
+        if id(action) not in ex:
+            return z3.And(z3.BoolVal(not got), h == S_("==SUPPRESS=="))
+        return z3.If(z3.And(h != S_("==SUPPRESS=="), z3.Length(ex[id(action)]) > 0), z3.BoolVal(present), z3.BoolVal(not got))
+
+    ctx.oblige("post", "an-argument-with-help-gets-its-own-expanded-help-as-an-argument-comment(top level and inside a group;ALL help strings:none for the SUPPRESS marker or an empty text)" + tag,
+               z3.And(help_comment(d["root"], "lr", d["actions"]["lr"]), help_comment(d["model"], "depth", d["actions"]["model.depth"])), strings=True)
+    ctx.oblige("post", "a-hidden-argument-and-one-without-help-get-no-comment" + tag, not comment_of(d["model"], "hidden") and not comment_of(d["root"], "nohelp"))
+    grp = comment_of(d["root"], "model")
+    title = d["g_model"].attrs["title"]
+    ctx.oblige("post", "a-group's-section-gets-the-group's-title-as-a-group-comment(none for an empty title;never the help of its loader option)" + tag,
+               z3.If(z3.Length(title) > 0, z3.BoolVal(len(grp) == 1 and grp[0][0] == "group" and grp[0][1] is title), z3.BoolVal(not grp)), strings=True)
+    if d["with_sub"]:
+        ctx.oblige("post", "an-argument-of-a-subcommand-gets-its-help-inside-the-subcommand's-section" + tag, help_comment(d["maps"]["fit"], "x", d["sub_action_x"]), strings=True)
+    starts = [e for e in log if e[0] == "start"]
+    if d["described"]:
+        ctx.oblige("post", "the-parser's-description-is-the-start-comment-of-the-document" + tag, len(starts) == 1 and starts[0][1] is d["parser"].attrs["description"] and starts[0][2] is d["root"])
+    else:
+        ctx.oblige("post", "no-description=>no-start-comment" + tag, not starts)
+    ctx.oblige("frame", "the-parser-is-only-read(found through the context variable,never another parser)" + tag, not _changed(d["parser"], d["snap_parser"]) and not [e for e in log if e[0] == "FIND-ON-WRONG-PARSER"])
+
+
+def yaml_comments_unit(prop):
+    return Unit(prop, FMT + "DefaultHelpFormatter.add_yaml_comments", yc_setup, yc_post, _no_exc,
+                trusted=["ruyaml round-trips a document it loaded: dumping the loaded object without touching its items reproduces the data lines; attached comments are emitted as '#' lines only",
+                         "set_yaml_*_comment attach one comment (their own units)", "_find_action / _expand_help / filter_default_actions by their own contracts", "re.sub evaluated by CPython on concrete keys"])
+
+
+def _sy_setup(kind):
+    def setup(ctx):
+        log = []
+        cfg = _ruyaml_map("section", {"k": z3.Int("v"), "other": z3.Int("w")}, log)
+        text, depth = z3.String("text"), z3.Int("depth")
+        env = {"self": Rec("DefaultHelpFormatter"), "text": text, "cfg": cfg}
+        if kind != "start":
+            env.update(key=z3.String("key"), depth=depth)
+        return Setup(env=env, data=dict(log=log, cfg=cfg, text=text, depth=depth, key=env.get("key")))
+    return setup
+
+
+def _sy_post(kind):
+    def post(ctx, st, result):
+        d = st.data
+        log = d["log"]
+        ok = len(log) == 1 and log[0][1] is d["cfg"] and log[0][0] == ("ruyaml-start-comment" if kind == "start" else "ruyaml-key-comment")
+        ctx.oblige("post", "C01:exactly-one-ruyaml-comment-call-on-the-map-given;no-item-of-the-map-is-written", ok)
+        if not ok:
+            return
+        a, k = log[0][2], log[0][3]
+        if kind == "start":
+            ctx.oblige("post", "the-start-comment-is-the-text-given", len(a) + len(k) == 1 and _same((list(a) + list(k.values()))[0], d["text"]))
+        else:
+            ok = len(a) == 1 and _same(a[0], d["key"]) and set(k) == {"before", "indent"} and is_z3(k["before"]) and is_z3(k["indent"])
+            ctx.oblige("post", "the-comment-goes-before-the-key-given(never after it:a comment after a key would follow its value on the data line)", ok)
+            if ok:
+                ctx.oblige("post", "its-text-is-a-blank-line-followed-by-the-text-given,indented-by-two-columns-per-nesting-level", z3.And(k["before"] == z3.Concat(S_("\n"), d["text"]), k["indent"] == 2 * d["depth"]), strings=True)
+    return post
+
+
+def yaml_comment_setter_units(prop):
+    return [Unit(prop, FMT + "DefaultHelpFormatter.set_yaml_" + kind + "_comment", _sy_setup(kind), _sy_post(kind), _no_exc,
+                 trusted=["CommentedMap.yaml_set_start_comment / yaml_set_comment_before_after_key attach comment tokens, items are not changed (ruyaml)"]) for kind in ("start", "group", "argument")]
+
+
+# ================================================================================================ _formatters: help strings
+EMPTY_HELP = "_EMPTY_HELP_"
+
+
+def ghs_setup(ctx):
+    kind = ["plain", "typehint", "config-file", "help-action"][ctx.choose(4, "action")]
+    for n in ("ActionConfigFile", "ActionTypeHint"):
+        ctx.classes.add(n, ["Action"])
+    ctx.classes.add("_HelpAction", ["Action"])
+    h = z3.String("help")
+    extra = z3.String("extra_help")
+    if kind == "help-action":
+        text = ["show this help message and exit", "Show help.", "x"][ctx.choose(3, "help-text")]
+        action = Rec("_HelpAction", attrs={"help": text, "default": "==SUPPRESS==", "option_strings": ["-h", "--help"], "nargs": 0, "dest": "help"})
+        dims = dict(text=text)
+    elif kind == "config-file":
+        empty = ctx.choose(2, "help-is-the-empty-marker") == 1
+        action = Rec("ActionConfigFile", attrs={"help": EMPTY_HELP if empty else h, "default": None, "option_strings": ["--cfg"], "nargs": None, "dest": "cfg", "_required": True})
+        dims = dict(empty=empty)
+    else:
+        required = [("no-attribute" if kind == "plain" else "False"), "True"][ctx.choose(2, "_required")]  # no attribute at all (argparse's own actions) counts as not required
+        default = ["None", "SUPPRESS", "value"][ctx.choose(3, "default")]
+        optional = ctx.choose(2, "positional") == 0
+        nargs = None if optional else [None, "?", "*"][ctx.choose(3, "nargs")]
+        type_str = [None, "int"][ctx.choose(2, "type-known")]
+        empty = False  # ALL help strings, the 'no help given' marker among them (the path forks on it)
+        attrs = {"help": EMPTY_HELP if empty else h, "default": {"None": None, "SUPPRESS": "==SUPPRESS==", "value": z3.Int("default")}[default], "option_strings": ["--x"] if optional else [], "nargs": nargs, "dest": "x"}
+        if required != "no-attribute":
+            attrs["_required"] = required == "True"
+        action = Rec("ActionTypeHint" if kind == "typehint" else "Action", attrs=attrs, methods={"extra_help": lambda c, s_, a, k: extra} if kind == "typehint" else {})
+        dims = dict(required=required == "True", default=default, optional=optional, nargs=nargs, type_str=type_str, empty=empty)
+    self = Rec("DefaultHelpFormatter", methods={"_get_type_str": lambda c, s_, a, k: dims.get("type_str")})
+    consts = {"empty_help": EMPTY_HELP, "SUPPRESS": "==SUPPRESS==", "OPTIONAL": "?", "ZERO_OR_MORE": "*"}
+    return Setup(env={"self": self, "action": action}, consts=consts, data=dict(kind=kind, dims=dims, h=h, extra=extra, action=action, snap=_snap(action)), watch={"help": h})
+
+
+def ghs_post(ctx, st, result):
+    d = st.data
+    kind, m, h = d["kind"], d["dims"], d["h"]
+    tag = f"[{kind},{ {k: v for k, v in m.items()} }]"
+    ctx.oblige("frame", "the-action-is-only-read" + tag, not _changed(d["action"], d["snap"]) and not ctx.mutlog)
+    if kind == "help-action":
+        want = {"show this help message and exit": "Show this help message and exit.", "Show help.": "Show help.", "x": "X."}[m["text"]]
+        ctx.oblige("post", "the-help-option's-text-is-capitalised-and-ends-with-one-full-stop" + tag, result == want)
+        return
+    base = S_(" ") if m["empty"] else z3.If(h == S_(EMPTY_HELP), S_(" "), h)  # the marker 'no help given' is shown as a blank
+    if kind == "config-file":
+        ctx.oblige("post", "a-config-file-option-shows-its-help-text-as-written(no required / default marker: it has no default to show)" + tag, lift(result) == base, strings=True)
+        return
+
+    def expected(has_type_ref, has_default_ref):
+        parts = []
+        if m["required"]:
+            parts.append("required")
+        if not has_type_ref and m["type_str"] is not None:
+            parts.append("type: %(type)s")
+        shows_default = m["default"] != "SUPPRESS" and (m["default"] != "None" or not m["required"]) and (m["optional"] or m["nargs"] in ("?", "*"))
+        if not has_default_ref and shows_default:  # 'default values are always included' - for everything that can be left out on the command line
+            parts.append("default: %(default)s")
+        inner = S_(", ".join(parts))
+        if kind == "typehint":
+            inner = z3.Concat(inner, d["extra"])
+        return z3.Concat(base, z3.If(z3.Length(inner) > 0, z3.Concat(S_(" ("), inner, S_(")")), S_("")))
+
+    if m["empty"]:
+        goal = lift(result) == expected(False, False)
+    else:
+        ct, cd = z3.Contains(base, S_("%(type)")), z3.Contains(base, S_("%(default)"))
+        goal = z3.And(*[z3.Implies(z3.And(ct == bool(a), cd == bool(b)), lift(result) == expected(a, b)) for a in (0, 1) for b in (0, 1)])
+    ctx.oblige("post", "the-help-text-as-written,then-in-brackets:required(if so),the-type(if known and not already referenced),the-default(always,for what may be left out;not a suppressed one,not None for a required one;not if already referenced),the-type's-extra-help" + tag,
+               goal, strings=True)
+
+
+def get_help_string_unit(prop):
+    return Unit(prop, FMT + "DefaultHelpFormatter._get_help_string", ghs_setup, ghs_post, _no_exc, max_paths=20000,
+                trusted=["_get_type_str / ActionTypeHint.extra_help return the type's name and extra text (their own contracts)"])
+
+
+def fai_setup(ctx):
+    kinds = ["subcommands", "positional", "option", "help-option", "print-config-option", "class-help-option", "shtab-option", "no-parser-in-context"]
+    kind = kinds[ctx.choose(len(kinds), "action")]
+    for n, b in (("_HelpAction", "Action"), ("ShtabAction", "Action"), ("_ActionSubCommands", "Action"), ("_ActionHelpClassPath", "Action"), ("_ActionPrintConfig", "Action"), ("ActionTypeHint", "Action")):
+        ctx.classes.add(n, [b])
+    cls = {"subcommands": "_ActionSubCommands", "positional": "ActionTypeHint", "option": "ActionTypeHint", "help-option": "_HelpAction", "print-config-option": "_ActionPrintConfig", "class-help-option": "_ActionHelpClassPath",
+           "shtab-option": "ShtabAction", "no-parser-in-context": "ActionTypeHint"}[kind]
+    action = Rec(cls, attrs={"dest": "x", "option_strings": [] if kind in ("positional", "subcommands") else ["--x"]})
+    default_env = z3.Bool("default_env")
+    parser = None if kind == "no-parser-in-context" else Rec("ArgumentParser", attrs={"default_env": default_env, "env_prefix": "APP"})
+    inv, envname = z3.String("argparse-invocation"), z3.String("ENV-NAME")
+    log = []
+    self = Rec("DefaultHelpFormatter")
+    calls = {"parent_parser.get": lambda c, a, k: parser, "get_env_var": lambda c, a, k: (log.append(("get_env_var", tuple(a))), envname)[1],
+             "super": lambda c, a, k: Rec("super()", methods={"_format_action_invocation": lambda c2, s2, a2, k2: (log.append(("argparse", tuple(a2))), inv)[1]})}
+    return Setup(env={"self": self, "action": action}, calls=calls, data=dict(kind=kind, action=action, parser=parser, default_env=default_env, inv=inv, envname=envname, log=log, self_=self,
+                                                                                 snap_a=_snap(action), snap_p=_snap(parser) if parser else None))
+
+
+def fai_post(ctx, st, result):
+    d = st.data
+    kind, env, inv, E = d["kind"], d["default_env"], d["inv"], d["envname"]
+    tag = f"[{kind}]"
+    ctx.oblige("post", "answered=>a-parser-is-in-context" + tag, d["parser"] is not None)
+    if d["parser"] is None:
+        return
+    if kind == "subcommands":
+        want = z3.If(env, z3.Concat(S_("ENV:   "), E, S_("\n\n  Available subcommands:")), S_("Available subcommands:"))
+    elif kind == "positional":
+        want = inv
+    elif kind == "option":
+        want = z3.If(env, z3.Concat(S_("ARG:   "), inv, S_("\n  ENV:   "), E), inv)
+    else:
+        want = z3.If(env, z3.Concat(S_("ARG:   "), inv), inv)  # options that cannot come from the environment show no ENV: line
+    ctx.oblige("post", "with-default_env:options-are-preceded-by-ARG:-and-followed-by-ENV:+their-environment-variable(not help/print-config/class-help/completion options);positionals-and-parsers-without-default_env:argparse's-text" + tag,
+               lift(result) == want, strings=True)
+    ok = all(e[1] == (d["self_"], d["action"]) if e[0] == "get_env_var" else e[1] == (d["action"],) for e in d["log"])
+    ctx.oblige("post", "the-variable-name-shown-is-the-one-computed-for-this-very-action(the name the environment is read by)" + tag, ok)
+    ctx.oblige("frame", "action-and-parser-are-only-read" + tag, not _changed(d["action"], d["snap_a"]) and not _changed(d["parser"], d["snap_p"]) and not ctx.mutlog)
+
+
+def fai_raises(ctx, st, exc):
+    d = st.data
+    ctx.oblige("raises", f"only-the-assertion-that-a-parser-is-in-context(got {exc.cls})[{d['kind']}]", exc.cls == "AssertionError" and d["parser"] is None)
+
+
+def format_action_invocation_unit(prop):
+    return Unit(prop, FMT + "DefaultHelpFormatter._format_action_invocation", fai_setup, fai_post, fai_raises, expect_cover=("return", "raise:AssertionError"),
+                trusted=["get_env_var(formatter, action) is the name _load_env_vars reads (env_var_unit)", "argparse's _format_action_invocation (super()) renders the option strings and metavar"])
+
+
 def units(prop):
     return [
-        parser_mode_unit(prop), default_meta_unit(prop), dump_header_unit(prop), add_subparsers_unit(prop), check_suppressed_unit(prop),
-        parse_optional_unit(prop), add_argument_group_unit(prop),
-    ]
+        parser_mode_unit(prop), default_meta_unit(prop), dump_header_unit(prop), parser_init_unit(prop), container_init_unit(prop), format_help_unit(prop), print_usage_unit(prop),
+        check_config_unit(prop), set_parsing_settings_unit(prop), get_parsing_setting_unit(prop), debug_mode_unit(prop),
+        class_instantiator_init_unit(prop), class_instantiator_call_unit(prop), default_instantiator_unit(prop),
+        add_subparsers_unit(prop), check_suppressed_unit(prop), parse_optional_unit(prop), add_argument_group_unit(prop),
+        yaml_comments_unit(prop), get_help_string_unit(prop), format_action_invocation_unit(prop),
+    ] + yaml_comment_setter_units(prop)
 
 
 CARRIES = {
-    "C09": ["ArgumentParser.parser_mode[setter+getter]", "ArgumentParser.default_meta[setter+getter]", "ArgumentParser.dump_header[setter+getter]"],
-    "C06": ["ArgumentParser._parse_optional", "ActionsContainer.add_argument_group", "ArgumentParser.add_subparsers"],
+    "C09": ["ArgumentParser.parser_mode[setter+getter]", "ArgumentParser.default_meta[setter+getter]", "ArgumentParser.dump_header[setter+getter]", "ArgumentParser.__init__", "ActionsContainer.__init__",
+            "ArgumentParser.format_help", "ArgumentParser.print_usage", "set_parsing_settings", "get_parsing_setting", "debug_mode_active",
+            "ClassInstantiator.__init__", "ClassInstantiator.__call__", "default_class_instantiator",
+            "DefaultHelpFormatter._get_help_string", "DefaultHelpFormatter._format_action_invocation"],
+    "C06": ["ArgumentParser._parse_optional", "ActionsContainer.add_argument_group", "ArgumentParser.add_subparsers", "ParserDeprecations.check_config", "get_parsing_setting"],
     "C04": ["check_suppressed_default"],
-    "C01": ["ArgumentParser.dump_header[setter+getter]"],
+    "C01": ["ArgumentParser.dump_header[setter+getter]", "DefaultHelpFormatter.add_yaml_comments", "DefaultHelpFormatter.set_yaml_start_comment", "DefaultHelpFormatter.set_yaml_group_comment",
+            "DefaultHelpFormatter.set_yaml_argument_comment"],
 }
